@@ -126,6 +126,10 @@ pub fn eval_comptime_blocks<'a>(
 
     let mut flag_builder = settings::builder();
     flag_builder.set("use_colocated_libcalls", "false").unwrap();
+    // without this cranelift refuses (panics on) functions with `i128`/`u128` parameters or results
+    flag_builder
+        .set("enable_llvm_abi_extensions", "true")
+        .unwrap();
     flag_builder.set("is_pic", "false").unwrap();
     let isa_builder = cranelift_native::builder().unwrap_or_else(|msg| {
         panic!("host machine is not supported: {}", msg);
